@@ -15,7 +15,12 @@
      ESetDel k       Add SetWorker{addr k, nil}    delete(workers, k)
      EForkFail k     the started fork k failed: ErrWorker carrying the bootstrap, no address
      ERekey b a      Add WorkerForked    workers[b] moves to key a, rpc client attached;
-                                         b missing: nothing changes (ErrWorkerMissing raised)
+                                         b missing: nothing changes (ErrWorkerMissing raised,
+                                         an EErr a that finds no entry). This is what happens
+                                         when the worker connects BEFORE its fork completes
+                                         (the TestFork seam returns late): ERekey b a, EErr a,
+                                         and only then ESetIns b - a boot entry that is never
+                                         re-keyed
      EKilled k       Add WorkerKilled    delete(workers, k)
      EKilling k      Add KillingWorker   the kill itself (seam / proc.Kill): no bookkeeping
      EErr k counted  Add ErrWorker{LocalAddr k}   ErrWorkerState: unless the error is
@@ -75,12 +80,14 @@ Record winfo := {
   w_errs : N;         (* errs.ItemCount(): errors ErrWorkerState has counted *)
   w_recent : N;       (* errsRecent.ItemCount() *)
   w_killreq : bool;   (* ghost: a kill was requested for this entry *)
-  w_delivered : N     (* ghost: countable errors raised for this entry, counted or not *)
+  w_delivered : N;    (* ghost: countable errors raised for this entry, counted or not *)
+  w_fork : nat        (* ghost: bootstrap key of the fork whose completion created the entry *)
 }.
 
-Definition fresh_info : winfo :=
+Definition fresh_info_of (k : nat) : winfo :=
   {| w_conn := false; w_ready := false; w_errs := 0; w_recent := 0; w_killreq := false;
-     w_delivered := 0 |}.
+     w_delivered := 0; w_fork := k |}.
+Definition fresh_info : winfo := fresh_info_of 0.
 
 Inductive event :=
 | EForkReq
@@ -209,19 +216,19 @@ Definition on_worker (s : st) (k : nat) (f : winfo -> winfo) : st :=
 
 Definition rekeyed (i : winfo) : winfo :=
   {| w_conn := true; w_ready := true; w_errs := w_errs i; w_recent := w_recent i;
-     w_killreq := w_killreq i; w_delivered := w_delivered i |}.
+     w_killreq := w_killreq i; w_delivered := w_delivered i; w_fork := w_fork i |}.
 
 (* ErrWorkerState's bookkeeping for a countable error *)
 Definition counted_err (c : cfg) (i : winfo) : winfo :=
   {| w_conn := w_conn i; w_ready := w_ready i; w_errs := w_errs i + 1;
      w_recent := w_recent i + 1;
      w_killreq := w_killreq i || (c_errkill c <? w_errs i + 1)%N;
-     w_delivered := w_delivered i + 1 |}.
+     w_delivered := w_delivered i + 1; w_fork := w_fork i |}.
 
 (* the error was raised but ErrWorkerState did not run *)
 Definition lost_err (i : winfo) : winfo :=
   {| w_conn := w_conn i; w_ready := w_ready i; w_errs := w_errs i; w_recent := w_recent i;
-     w_killreq := w_killreq i; w_delivered := w_delivered i + 1 |}.
+     w_killreq := w_killreq i; w_delivered := w_delivered i + 1; w_fork := w_fork i |}.
 
 (* ---- gates (negotiation handlers) *)
 
@@ -249,7 +256,7 @@ Definition effect (fx : fixes) (c : cfg) (s : st) (e : event) : st :=
     let known := has k (s_inflight s) ||
                  (match wfind k (s_workers s) with Some _ => true | None => false end) in
     upd (set_inflight s (rem k (s_inflight s)) (s_peak s) (s_foreign s || negb known))
-        (wset k fresh_info (s_workers s))
+        (wset k (fresh_info_of k) (s_workers s))
   | ESetDel k => upd s (wdel k (s_workers s))
   | EForkFail k =>
     set_errworker (set_inflight s (rem k (s_inflight s)) (s_peak s) (s_foreign s)) true
@@ -277,15 +284,15 @@ Definition effect (fx : fixes) (c : cfg) (s : st) (e : event) : st :=
   | EFlip k b =>
     on_worker s k (fun i => {| w_conn := w_conn i; w_ready := b; w_errs := w_errs i;
                                w_recent := w_recent i; w_killreq := w_killreq i;
-                               w_delivered := w_delivered i |})
+                               w_delivered := w_delivered i; w_fork := w_fork i |})
   | EExpire k =>
     on_worker s k (fun i => {| w_conn := w_conn i; w_ready := w_ready i; w_errs := w_errs i;
                                w_recent := 0; w_killreq := w_killreq i;
-                               w_delivered := w_delivered i |})
+                               w_delivered := w_delivered i; w_fork := w_fork i |})
   | EErrsExpire k =>
     on_worker s k (fun i => {| w_conn := w_conn i; w_ready := w_ready i; w_errs := 0;
                                w_recent := w_recent i; w_killreq := w_killreq i;
-                               w_delivered := 0 |})
+                               w_delivered := 0; w_fork := w_fork i |})
   | ETryReady => set_poolready s true
   | ETryUnready => set_poolready s false
   | ENormalize => s
@@ -324,3 +331,10 @@ Definition norm_round (c : cfg) (s : st) (ks : list nat) : list event :=
 (* the forks started by an event list *)
 Definition forkings (evs : list event) : nat :=
   length (filter (fun e => match e with EForking _ => true | _ => false end) evs).
+
+(* the fork completions (SetWorker inserts) in an event list, and their keys *)
+Definition insert_keys (evs : list event) : list nat :=
+  flat_map (fun e => match e with ESetIns k => [k] | _ => [] end) evs.
+
+(* the forks the tracked entries stem from *)
+Definition forks_of (s : st) : list nat := map (fun p : nat * winfo => w_fork (snd p)) (s_workers s).
